@@ -63,6 +63,10 @@ func modelUnmarshal(b []byte, val interface{}) (rest []byte, err error) {
 		kind = "rdn"
 	case *pkix.RevokedCertificate:
 		kind = "entry"
+		// like encoding/asn1: an OPTIONAL field that is absent in the input is left untouched
+		if len(b) > 0 && b[len(b)-1]&1 == 1 {
+			v.Extensions = []pkix.Extension{{Id: oidIDP}}
+		}
 	case *[]pkix.Extension:
 		kind = "exts"
 		*v = extsModel
@@ -95,6 +99,7 @@ type recProc struct {
 	events  []string
 	meta    *CRLMetaInfo
 	inserts []*CRLEntry
+	snaps   []pkix.RevokedCertificate // what the consumer saw at the time of the call (it persists at once)
 	ext     *ExtendedCRLMetaInfo
 }
 
@@ -106,6 +111,7 @@ func (p *recProc) StartUpdateCrl(m *CRLMetaInfo) error {
 func (p *recProc) InsertRevokedCertificate(e *CRLEntry) error {
 	p.events = append(p.events, "insert")
 	p.inserts = append(p.inserts, e)
+	p.snaps = append(p.snaps, *e.RevokedCertificate)
 	return nil
 }
 func (p *recProc) UpdateExtendedMetaInfo(i *ExtendedCRLMetaInfo) error {
